@@ -131,6 +131,9 @@ pub fn convert_profile() -> Profile {
         ("build_func", 2),
         ("inject", 2),
     ]);
+    // structurally equal duplicates in the type section: the type ID given at conversion is then one of
+    // several candidates and must be the one the import entry carries
+    p.dup_types = true;
     p
 }
 
@@ -282,6 +285,8 @@ pub fn iterate_profile() -> Profile {
     // instructions of a function flagged as deleted is not stated by the property)
     p.ops = w(&[("build_func", 3), ("add_import_func", 2), ("add_global", 1), ("replace_import", 3), ("convert_local_to_import", 2)]);
     p.mean_ops = 2;
+    // functions whose body is only the final `end`: one position, end flag set, still visited
+    p.empty_bodies = true;
     p
 }
 
